@@ -668,3 +668,13 @@ PLANS["C18"]["quick"] = PLANS["C18"]["quick"] + [_LEAK_T, _LEAK_S]
 PLANS["C18"]["thorough"] = PLANS["C18"]["thorough"] + [_LEAK_T, _LEAK_S, lp("Sbq-sanl1-leak", "sanl1", "Sbq", "default", weight=1, crash_props=["C17", "C18"], opts={"fam": "Sbq", "cfg": "default", "leak": 1})]
 PLANS["C18"]["rule"] += "; family lp with leak=1: for every LP of T and S0q1 the allocated-byte counter before build ; QSexact_solver (dual and primal start) ; free and after it must agree (second round)"
 PLANS["C18"]["evidence"] = {"states": sorted(set(PLANS["C18"]["evidence"]["states"] + ["instances"])), "transitions": sorted(set(PLANS["C18"]["evidence"]["transitions"] + ["leak_probes"])), "nontrivial": PLANS["C18"]["evidence"]["nontrivial"]}
+
+# multiple partial pricing on the catalogue's wide LPs (candidate buckets of 100 entries), direct primal and dual simplex and the exact driver
+_PART = [fam("meta-CAT-partial-primal-san", "san", "meta", {"fam": "CAT", "depth": 1, "partial": 2, "algo": "primal", "ncat": 14}, weight=2, crash_props=["C17", "C15"], timeout=900),
+         fam("meta-CAT-partial-dual-san", "san", "meta", {"fam": "CAT", "depth": 1, "partial": 2, "algo": "dual", "ncat": 14}, weight=2, crash_props=["C17", "C15"], timeout=900)]
+PLANS["C17"]["quick"] = PLANS["C17"]["quick"] + _PART
+PLANS["C17"]["thorough"] = PLANS["C17"]["thorough"] + _PART
+PLANS["C15"]["quick"] = PLANS["C15"]["quick"] + [fam("meta-CAT-partial-primal", "prod", "meta", {"fam": "CAT", "depth": 1, "partial": 1, "algo": "primal"}, weight=1, crash_props=["C17", "C15"], timeout=900)]
+# B^-1 / tableau rows on the catalogue CP (3..5 rows, fixed and boxed columns)
+PLANS["C13"]["quick"] = PLANS["C13"]["quick"] + [fac("binv-CP", "prod", {"fam": "CP"}, weight=1, family="binv")]
+PLANS["C13"]["thorough"] = PLANS["C13"]["thorough"] + [fac("binv-CP", "prod", {"fam": "CP"}, weight=1, family="binv"), fac("binv-CP-san", "san", {"fam": "CP"}, weight=1, family="binv")]
